@@ -151,7 +151,8 @@ Proof. repeat split; vm_compute; reflexivity. Qed.
 Example C17_refuse_nonvacuous :
   In (U 0) catalogue /\ In (U 6) catalogue /\ compatible (uu (U 0)) (uu (U 6)) = false
   /\ fst (step [] (Prepare (U 0) (U 6) 1)) = RErr ErrData
-  /\ fst (step [((0, 3), (false, false))]%nat (Link None (U 0) (U 6) 1)) = RErr ErrMeta
+  (* memo hit on the sound entry (meter, second) -> (false, false) *)
+  /\ fst (step [((0, 4), (false, false))]%nat (Link None (U 0) (U 6) 1)) = RErr ErrMeta
   /\ compatible (uu (U 0)) (uu (U 3)) = true
   /\ fst (step [] (Prepare (U 0) (U 3) 1)) = RVal 2 true 1000.
 Proof. repeat split; vm_compute; auto 10. Qed.
